@@ -1,8 +1,8 @@
 """C17 - session ids (DESIGN.md 5/C17)."""
 from . import srvrules as R
 
-META = {'level': 'proof', 'explanation': 'see DESIGN.md 5/C17', 'trusted_base': [],
-        'not_decided': [], 'assumptions': []}
+from .meta import meta
+META = meta('C17', level='proof', extra_tb=['base64 is injective on fixed-length input and emits only [A-Za-z0-9+/=]', 'secrets.token_bytes / os.urandom are the OS CSPRNG'])
 
 
 def check(A):
